@@ -742,6 +742,12 @@ func (te *tableEngine) PlayerFold(playerID string) error {
 		return ErrGamePlayerNotFound
 	}
 
+	// the round in which the fold is made (once the call returns the hand may have moved on already)
+	round := ""
+	if cur := te.game.GetGameState(); cur != nil {
+		round = cur.Status.Round
+	}
+
 	gs, err := te.game.Fold(gamePlayerIdx)
 	if err == nil {
 		te.table.State.LastPlayerGameAction = te.createPlayerGameAction(playerID, playerIdx, WagerAction_Fold, 0, gs.GetPlayer(gamePlayerIdx))
@@ -750,7 +756,7 @@ func (te *tableEngine) PlayerFold(playerID string) error {
 		playerState := te.table.State.PlayerStates[playerIdx]
 		playerState.GameStatistics.ActionTimes++
 		playerState.GameStatistics.IsFold = true
-		playerState.GameStatistics.FoldRound = te.game.GetGameState().Status.Round
+		playerState.GameStatistics.FoldRound = round
 
 		if playerState.GameStatistics.IsFt3BChance {
 			playerState.GameStatistics.IsFt3B = true
